@@ -1353,7 +1353,11 @@ func (enc *VP8Encoder) EncodeFrame() ([]byte, error) {
 	// - Enough rows for meaningful parallelism (mbH >= 4)
 	// - Method >= 3 (RD-based mode selection, which is the hot path)
 	// - Single-pass quality mode (no rate control iteration)
-	useParallel := runtime.GOMAXPROCS(0) > 1 && enc.mbH >= 4 && enc.config.Method >= 3 && !doSearch
+	// The row-pipelined path is a different algorithm from the serial one (no
+	// mid-stream probability refresh, no DC error diffusion), so selecting it
+	// must not depend on GOMAXPROCS or the output bytes would; with a single
+	// CPU it simply runs with one worker.
+	useParallel := enc.mbH >= 4 && enc.config.Method >= 3 && !doSearch
 
 	var stats ProbaStats
 	for pass := 0; pass < maxPasses; pass++ {
